@@ -78,6 +78,8 @@ Seg(off, len) == [i \in 1..len |-> ByteAtI(off + i - 1)]
 \* property precondition: segments carry bytes of the one stream (or stale bytes before it) and lie
 \* within half the sequence space of the current position
 Segments == {s \in ((0 - 2)..(L-1)) \X (1..L) : s[1] + s[2] <= L}
+\* ... which bounds the configurations that are meaningful: positions span -2..L around a delivery point in 0..L
+ASSUME L + 2 < M \div 2
 
 Init == /\ isn \in SeqSpace /\ seq = isn /\ buf = << >> /\ total = 0 /\ payload = <<>>
         /\ arrived = {} /\ delivered = <<>>
